@@ -38,8 +38,8 @@ Qed.
 Lemma dmk_blank : dmk 32 = false. Proof. reflexivity. Qed.
 
 (* no keyword of a recognised handler contains one of the six characters *)
-Definition cond_keywords (c : hcond) : list bytes := match c with CIn kw | CInSpace kw | CExact kw => kw | _ => [] end.
-Definition cond_sep_ok (c : hcond) : bool := match c with CRec sep _ _ => negb (dmk sep) | _ => true end.
+Definition cond_keywords (c : hcond) : list bytes := match c with CIn kw | CInSpace kw | CExact kw | CInSep _ kw => kw | _ => [] end.
+Definition cond_sep_ok (c : hcond) : bool := match c with CRec sep _ _ | CInSep sep _ => negb (dmk sep) | _ => true end.
 Definition clean_word (k : bytes) : bool := forallb (fun c => negb (dmk c)) k.
 Lemma handler_keywords_clean :
   forallb (fun h => forallb (fun c => forallb clean_word (cond_keywords c)) (snd h)) css_handler_defs = true.
